@@ -140,6 +140,16 @@ DESC = {
 "C15l": "resolve_remote calls self._remote_cache.cache_clear() when overwriting a stored entry (caller-supplied plain functions have no cache_clear)", "C16l": "siblings of $ref are skipped only when the class's keyword table has a truthy $ref entry",
 "C17l": "_Error.absolute_path reverses the parent's deque in place (reading a child's absolute_path moves the parent's path)", "C18l": "types_msg lifts the interpreter's int->str digit limit (sys.set_int_max_str_digits(0)) and never restores it",
 "C19l": "blank stdin is taken for 'no instance given' (exit 0, no diagnostic)", "C20l": "CLI exit status is the verdict of the LAST loadable instance (= instead of |=)",
+"C01m": "patternProperties compiles its patterns once per distinct tuple of regex strings, memoising the subschemas with them (a later schema with the same patterns gets the earlier subschemas)", "C02m": "cli.run without --base-uri builds RefResolver.from_schema(schema) without the class's id_of (draft 3/4 `id` ignored)",
+"C03m": "the `date` checker lost raises=ValueError (an impossible date lets ValueError escape)", "C04m": "RefResolver.resolve memoised per reference string, ignoring the resolution scope (reused validator differs from a fresh one)",
+"C05m": "extras_msg lists sorted(extras) (two mutually unorderable extra items -> TypeError instead of errors)", "C06m": "best_match grafts the parent's instance path onto the context error it hands back",
+"C07m": "per-resolver cache of JSON-pointer tokens hands out a one-shot iterator (second resolution of a pointer walks nothing)", "C08m": "equal() falls back to Python == when unbool() hits the recursion limit (true == 1 for deep values)",
+"C09m": "numeric keywords' messages abbreviate integers beyond 256 bits in scientific notation", "C10m": "is_valid follows a bare {$ref} itself without pushing the referent's scope (a sibling switches back to the correct route)",
+"C11m": "types_msg formats the type-error message twice (instance text containing % breaks or changes it)", "C12m": "FormatChecker.check builds its failure message before running the check (unrenderable instances raise although the check passes)",
+"C13m": "email requires exactly one @", "C14m": "URIDict.normalize drops the fragment (a member-as-referrer overwrites the enclosing document's store entry)",
+"C15m": "resolve_fragment memoises by (id(document), fragment) (a re-fetched or short-lived document gets another's value)", "C16m": "legacy type-check memo keyed by the reprs of the given classes and the instance class (distinct classes sharing a name are confused)",
+"C17m": "ErrorTree.__getitem__ accepts decimal strings for array indices (tree['0'] creates/returns the node of 0)", "C18m": "_generate_legacy_type_checks accumulates in a mutable default (every types= validator also gets what earlier ones asked for)",
+"C19m": "cli.run without --base-uri builds the resolver without the class's id_of (same slip as C02m, seeded independently)", "C20m": "create() registers only for a truthy version (version='' is silently not registered)",
 }
 MISSED = set("C03 C07 C12 C15 C16 C20 C02b C06b C07b C10b C11b C14b C19b C01c C02c C06c C10c C12c C15c C16c C18c C19c C20c "
              "C02d C04d C05d C07d C09d C13d C15d C16d C18d C19d C20d "
@@ -150,7 +160,8 @@ MISSED = set("C03 C07 C12 C15 C16 C20 C02b C06b C07b C10b C11b C14b C19b C01c C0
              "C04i C06i C10i C15i C16i C17i C18i C19i C20i "
              "C02j C04j C05j C06j C07j C08j C10j C13j C15j C19j "
              "C02k C04k C08k C10k C11k C12k C14k C17k C18k C19k C20k "
-             "C01l C04l C06l C07l C08l C10l C11l C16l C17l C18l C19l C20l".split())
+             "C01l C04l C06l C07l C08l C10l C11l C16l C17l C18l C19l C20l "
+             "C02m C03m C04m C05m C08m C10m C12m C14m C16m C18m C19m C20m".split())
 rows = []
 for name in sorted(os.listdir(os.path.join(HERE, "seeded"))):
     mp = os.path.join(HERE, "seeded", name, "meta.json")
